@@ -1193,6 +1193,15 @@ static bool gen_trampoline() {
 }
 
 static std::string hexn(const uint8_t* p, int n) { return vh::hex(p, size_t(n)); }
+// deterministic description of received bytes (no addresses / stack garbage in reports)
+static std::string describe_bytes(const uint8_t* p, int n, int tag0) {
+  bool all_dd = true, all_ee = true;
+  for (int i = 0; i < n; i++) { if (p[i] != 0xDD) all_dd = false; if (p[i] != 0xEE) all_ee = false; }
+  if (all_dd) return "nothing (the capture fill 0xDD)";
+  if (all_ee) return "the poison block 0xEE (a pointer slot / register the caller never wrote)";
+  for (int j = 0; j < 32; j++) if (memcmp(p, g_tags[tag0 + j], size_t(std::min(n, 8))) == 0) return "the leading bytes of the value tagged for argument " + std::to_string(j);
+  return "other data";
+}
 
 // a wrong layout can make the compiled side dereference an argument value as a by-reference pointer: the fault is caught and reported
 #include <setjmp.h>
@@ -1249,14 +1258,14 @@ static void interop_case(int k, int ic, int dir, ILib& lib, bool avx512) {
     if (memcmp(got_args + 64 * i, g_tags[tag0 + i], size_t(n)) != 0) {
       Loc l = actual_of(fd.arg(size_t(i)));
       c.violation(keyb + ":" + cls_key(s.args[i], 64), std::string("argument ") + std::to_string(i) + " (" + tname(s.args[i]) + ", FuncDetail: " + l.str() + ") arrives as " +
-                  hexn(got_args + 64 * i, n) + " instead of " + hexn(g_tags[tag0 + i], n) + " :: " + what, rp);
+                  describe_bytes(got_args + 64 * i, n, tag0) + " instead of its tagged value " + hexn(g_tags[tag0 + i], std::min(n, 16)) + " :: " + what, rp);
       return;
     }
   }
   int n = cmp_size(s.ret);
   if (memcmp(got_ret, g_tags[rtag], size_t(n)) != 0) {
     Loc l = actual_of(fd.ret(0));
-    c.violation(keyb + "-ret:" + cls_key(s.ret, 64), std::string("return value (") + tname(s.ret) + ", FuncDetail: " + l.str() + ") arrives as " + hexn(got_ret, n) + " instead of " + hexn(g_tags[rtag], n) + " :: " + what, rp);
+    c.violation(keyb + "-ret:" + cls_key(s.ret, 64), std::string("return value (") + tname(s.ret) + ", FuncDetail: " + l.str() + ") does not arrive: expected the tagged value " + hexn(g_tags[rtag], std::min(n, 16)) + " :: " + what, rp);
     return;
   }
   c.sample(std::string("interop ") + what, 8);
@@ -1310,7 +1319,9 @@ int main(int argc, char** argv) {
     fprintf(stderr, "unknown replay text\n"); return 2;
   }
   if (part == "sweep") sweep();
-  c.strs["rule"] = "every (target, calling convention id, signature, first-variadic index, return type): FuncDetail::init() on the real library vs. a reference ABI classifier; "
+  c.strs["rule"] = "every (target, calling convention id, signature, first-variadic index, return type): FuncDetail::init() on the real library vs. a reference ABI classifier "
+                   "(argument/return locations, by-reference, stack offsets, arg_stack_size, callee-pops, red/spill zone, preserved sets, alignment; return types: all for signatures of length <= 1, rotating otherwise); "
+                   "a sub-bound repeated under ASan+UBSan; 46 fixed signatures executed against clang-compiled C on the x86-64 host (System V, Win64, __vectorcall; both call directions); "
                    "type alphabet x86 {i64,u64,iptr,i8,u8,i16,u16,i32,u32,f32,f64,f80,mmx64,v128i,v128f,v256,v512,mask8,mask16,mask32,mask64}, AArch64 {9 ints,f32,f64,v64,v128i,v128f}; "
                    "targets x86-linux, x86-win, x64-linux, x64-win, a64-linux, a64-macos, a64-ios, a64-win; every case is a distinct input";
   return vh::finish();
